@@ -44,7 +44,10 @@ def impl_cfg(cfg):
     for th in cfg:
         a, b, i = th["key"]
         ops = [[o[0], pay(o[1])] if o[0] == "send" else list(o) for o in th["ops"]]
-        out.append(dict(key=[f"n{a}", f"n{b}", i], cb=th["cb"], ops=ops))
+        d = dict(key=[f"n{a}", f"n{b}", i], cb=th["cb"], ops=ops)
+        if th.get("cls"):
+            d["cls"] = th["cls"]
+        out.append(d)
     return out
 
 
@@ -70,7 +73,66 @@ def rkey(k):
     return [k[1], k[0], k[2]]
 
 
+def socket_classes():
+    """names of the socket classes socket.py exports, and whether each lets the caller choose use_callbacks"""
+    import importlib
+    import inspect
+    sm = importlib.import_module("netqasm.sdk.classical_communication.thread_socket.socket")
+    return {c.__name__: ("use_callbacks" in inspect.signature(c.__init__).parameters)
+            for c in vars(sm).values() if isinstance(c, type) and issubclass(c, sm.ThreadSocket)}
+
+
 def gen_cfg(rng, family=None):
+    family, cfg = _gen_cfg(rng, family)
+    # endpoints of every exported socket class: a class that forces callback delivery (StorageThreadSocket)
+    # stands for a callback endpoint
+    forced = [n for n, takes in socket_classes().items() if not takes]
+    if forced:
+        for th in cfg:
+            if th.get("cb") and rng.random() < 0.5:
+                th["cls"] = rng.choice(forced)
+    return family, cfg
+
+
+def gen_two_runs(rng):
+    """Two configurations on the same names / socket id for one process: the first leaves something behind
+    (unreceived messages, endpoints that never disconnect), then reset_socket_hub(), then the second."""
+    cb = rng.random() < 0.3
+    n1 = rng.randint(1, 3)
+    first = [dict(key=[0, 1, 0], cb=False, ops=[["connect"]] + [["send", 20 + 2 * i + 1] for i in range(n1)] +
+                                           ([["disconnect"]] if rng.random() < 0.3 else [])),
+             dict(key=[1, 0, 0], cb=cb, ops=[["connect"]] + ([] if cb else [["recv"] for _ in range(rng.randint(0, n1 - 1))]) +
+                                        ([["disconnect"]] if rng.random() < 0.2 else []))]
+    n2 = rng.randint(0, 2)
+    cb2 = rng.random() < 0.3
+    rops = [["connect"]] + ([] if cb2 else [["recvnb"]] * rng.randint(1, 2) + [["recv"] for _ in range(n2)])
+    second = [dict(key=[0, 1, 0], cb=False, ops=[["connect"]] + [["send", 2 * i + 1] for i in range(n2)]),
+              dict(key=[1, 0, 0], cb=cb2, ops=rops)]
+    if rng.random() < 0.5:
+        second.reverse()
+    return first, second
+
+
+def run_two(cfg1, cfg2, ch1, ch2):
+    """run cfg1, reset_socket_hub(), run cfg2 — on the hub object the exported socket classes are bound to.
+    Everything that reads the hub is computed before the next phase touches it."""
+    out = {}
+    r1 = hs.Run(impl_cfg(cfg1), live=True)
+    try:
+        r1.execute(ch1, mode="line")
+        if not r1.harness_errors:
+            out["bad1"], out["ci1"] = oracle(r1, cfg1), canon_impl(r1, cfg1)
+        r2 = hs.Run(impl_cfg(cfg2), live=True, reset_api=True)
+        r2.execute(ch2, mode="line")
+        if not r2.harness_errors:
+            out["bad2"], out["ci2"] = oracle(r2, cfg2), canon_impl(r2, cfg2)
+    finally:
+        r1.cleanup_live()
+    out["r1"], out["r2"] = r1, r2
+    return out
+
+
+def _gen_cfg(rng, family=None):
     """Small configurations: 2-4 threads, <= 4 ops each between connect and disconnect."""
     family = family or rng.choice(["pair", "pair", "pair", "paircb", "paircb", "twosock", "threenode",
                                    "reinc", "reinc", "lone", "shared", "reconn", "reconn", "reconn", "switch", "switch", "switch"])
